@@ -279,7 +279,8 @@ void XmppSocket::processData(const QString &data)
     //
     // the XML declaration may contain line breaks and attribute values may contain '>'
     static const QRegularExpression streamStartRegex(uR"re(^(<\?xml[^>]*\?>)?\s*<stream:stream(?:[^>'"]|'[^']*'|"[^"]*")*>)re"_s);
-    static const QRegularExpression streamEndRegex(u"</stream:stream>$"_s);
+    // white space may follow the closing tag (XML allows it after the root element; servers often send a line break)
+    static const QRegularExpression streamEndRegex(uR"(</stream:stream>\s*$)"_s);
 
     auto streamOpenMatch = streamStartRegex.match(m_dataBuffer);
     bool hasStreamOpen = streamOpenMatch.hasMatch();
